@@ -21,6 +21,7 @@ type TypeMap struct {
 	StrS     *Sort
 	BytesS   *Sort
 	ConstArr func(s *Sort, v *Term) *Term
+	Bounds   func(t *Term) (lo, hi *big.Int) // optional interval oracle (nil bounds = unknown)
 }
 
 func NewTypeMap(p *Pool) *TypeMap {
@@ -212,6 +213,11 @@ func (tm *TypeMap) Wrap(x *Term, t types.Type) *Term {
 		return x
 	}
 	p := tm.p
+	if tm.Bounds != nil {
+		if bl, bh := tm.Bounds(x); bl != nil && bh != nil && bl.Cmp(lo) >= 0 && bh.Cmp(hi) <= 0 {
+			return x // provably in range: no wrap-around
+		}
+	}
 	size := new(big.Int).Add(new(big.Int).Sub(hi, lo), big.NewInt(1))
 	if lo.Sign() == 0 {
 		return p.Mod(x, p.IntBig(size))
